@@ -291,6 +291,16 @@ func (w *World) WireCheck(e *hb.Exec, ops map[uint64]*Op) []string {
 		if m := trMismatch(s.TimeRange, op); m != "" {
 			f("%s", m)
 		}
+		switch {
+		case !op.Filter && s.Filter != nil:
+			f("filter %v set, the caller set none", s.Filter)
+		case op.Filter:
+			pf := &pb.PageFilter{}
+			if s.Filter == nil || s.Filter.GetName() != "org.apache.hadoop.hbase.filter.PageFilter" ||
+				proto.Unmarshal(s.Filter.GetSerializedFilter(), pf) != nil || pf.GetPageSize() != pageAll {
+				f("filter %v, want a PageFilter of %d rows", s.Filter, pageAll)
+			}
+		}
 		if s.GetMaxResultSize() != 2097152 {
 			f("max_result_size %d", s.GetMaxResultSize())
 		}
